@@ -113,6 +113,7 @@ package store
 
 //@ func Momentum.GetMomentumByHeight(self, height) -> (m, err)
 //@   ensures err == nil ==> int(m) == self.momentumAt[height]
+//@   ensures err == nil && m != nil ==> m.Height == height && height <= self.idHeight && height >= 1
 //@   modifies nothing
 
 //@ model Momentum idTimestamp int   // TimestampUnix of the momentum this store is the state of
